@@ -20,7 +20,7 @@ ASSUMPTIONS = ['every transcription is over its own engine\'s charset', 'the mea
                'confidence equality within 1e-12']
 N = {'quick': 1500, 'thorough': 60000}
 CLASSES = ['mixed', 'mixed', 'ties', 'self_merge', 'all_empty', 'different_charsets', 'single_engine', 'unalignable', 'per_line_charsets', 'merge_of_merges']
-REQUIRED = ['per_line_charset_merges', 'merges', 'lines_checked', 'winner_not_first', 'ties_checked', 'self_merges', 'no_positive_confidence_lines']
+REQUIRED = ['main_runs', 'main_tie_lines', 'per_line_charset_merges', 'merges', 'lines_checked', 'winner_not_first', 'ties_checked', 'self_merges', 'no_positive_confidence_lines']
 
 
 def setup(ctx):
@@ -199,3 +199,77 @@ def check(case, mon, ctx):
             nontriv = True
     if nontriv:
         mon.mark_nontrivial()
+
+
+def extra(mon, ctx):
+    """the script's main(): engines are the directories in the order given on the command line (here NOT alphabetical); the merged files must
+    carry, per line, what merge_layouts gives for the layouts in that order - in particular the first engine on ties"""
+    if ctx.shard != 0:
+        return
+    import sys
+    import contextlib
+    import io
+    L, M = ctx.layout, ctx.M
+    rng = np.random.default_rng([ctx.seed, 19, 7])
+    for rep in range(3 if ctx.tier == 'quick' else 40):
+        root = os.path.join(ctx.tmpdir, 'main%d' % rep)
+        names = ['zz_engine', 'mm_engine', 'aa_engine'][:int(rng.integers(2, 4))]
+        nl = int(rng.integers(2, 6))
+        engines = []
+        for e, name in enumerate(names):
+            lines = []
+            for l in range(nl):
+                kind = str(rng.choice(['tie_unalignable', 'tie_unalignable', 'text', 'empty']))
+                cs = list(BASE)
+                t = ''.join(cs[int(k)] for k in rng.integers(0, len(cs) - 1, size=int(rng.integers(2, 7)))) if kind != 'empty' else ''
+                lines.append({'text': t, 'mode': 'short' if kind == 'tie_unalignable' else str(rng.choice(['peaky', 'noisy'])), 'seed': int(rng.integers(0, 1 << 30)), 'kind': kind})
+            engines.append({'chars': list(BASE), 'lines': lines})
+        # the same kind of line in every engine, so that unalignable lines tie at 0.5 with different texts
+        for l in range(nl):
+            for e in engines[1:]:
+                e['lines'][l]['mode'] = engines[0]['lines'][l]['mode'] if engines[0]['lines'][l]['kind'] == 'tie_unalignable' else e['lines'][l]['mode']
+                if engines[0]['lines'][l]['kind'] == 'tie_unalignable' and not e['lines'][l]['text']:
+                    e['lines'][l]['text'] = 'ab'
+            if engines[0]['lines'][l]['kind'] == 'tie_unalignable' and not engines[0]['lines'][l]['text']:
+                engines[0]['lines'][l]['text'] = 'ba'
+        layouts = [build_layout(L, e, nl) for e in engines]
+        for name, pl in zip(names, layouts):
+            d = os.path.join(root, name)
+            os.makedirs(d)
+            pl.to_pagexml(os.path.join(d, 'page.xml'))
+            pl.save_logits(os.path.join(d, 'page.logits'))
+        # expected: the in-process merge of the RE-LOADED layouts in command-line order
+        loaded = []
+        for name in names:
+            pl = L.PageLayout(file=os.path.join(root, name, 'page.xml'))
+            pl.load_logits(os.path.join(root, name, 'page.logits'))
+            loaded.append(pl)
+        confs = [[expected_conf(ctx, l) for l in pl.lines_iterator()] for pl in loaded]
+        want = []
+        for li in range(nl):
+            best, bi = 0, None
+            for e in range(len(names)):
+                if confs[e][li] > best:
+                    best, bi = confs[e][li], e
+            want.append(list(loaded[bi if bi is not None else 0].lines_iterator())[li].transcription)
+            pos = sorted([c[li] for c in confs if c[li] > 0], reverse=True)
+            if len(pos) >= 2 and pos[0] == pos[1]:
+                mon.count('main_tie_lines')
+        old = sys.argv
+        sys.argv = ['merge_ocr_results.py', '--output-path', os.path.join(root, 'out')] + [os.path.join(root, n) for n in names]
+        try:
+            with contextlib.redirect_stdout(io.StringIO()):
+                M.main()
+        except BaseException as e:
+            mon.violation('merge-raises', {'via': 'main()', 'exception': repr(e)[:300]})
+            continue
+        finally:
+            sys.argv = old
+        mon.count('main_runs')
+        mon.count('extra_evaluations')
+        mon.cur_desc = {'leg': 'merge_ocr_results.main()', 'engine_directories_in_command_line_order': names, 'lines': nl}
+        out = L.PageLayout(file=os.path.join(root, 'out', 'page.xml'))
+        got = [l.transcription for l in out.lines_iterator()]
+        norm = lambda t: t if t else None
+        if [norm(x) for x in got] != [norm(x) for x in want]:
+            mon.violation('keeps-most-confident-transcription', {'via': 'main()', 'directories': names, 'got': got, 'expected': want, 'confidences': confs})
